@@ -114,7 +114,13 @@ def run(ctx):
                     int_tags['small'].add(tag)
                 elif tag in (110, 111):
                     int_tags['big'].add(tag)
-        ctx.anchor(int_tags['small'] == {97, 98} and int_tags['big'] >= {110}, ENC + 'encode_integer:width thresholds (97/98 only within i32)')
+        ctx.rule('C15.2-integer-widths', 'the encoder writes SMALL_INTEGER_EXT / INTEGER_EXT only for values the interval analysis shows to lie within the i32 range, and has a big-integer form for the rest: '
+                 'this is what makes "wide integers come back as big integers" (and nothing else) the wire image of i64/u64/u32 fields', floor=1)
+        if int_tags['small'] == {97, 98} and int_tags['big'] >= {110}:
+            ctx.ok('C15.2-integer-widths', 'encode_integer', 'tags 97/98 written only with the value within [-2^31, 2^31-1]; 110 (and 111) otherwise', ctx.where(EB))
+        else:
+            ctx.bad('C15.2-integer-widths', 'encode_integer', 'the small integer tags are not confined to the i32 range (tags shown to be in range: %s, big forms: %s): a value just outside it is written with a 32-bit form and comes back altered'
+                    % (sorted(int_tags['small']), sorted(int_tags['big'])), ctx.where(EB), key='CAST:%sencode_integer:small-tags-outside-i32' % ENC)
     tagflow = (dec, tags_by_variant, int_tags)
 
     ctx.rule('C15.1-in-memory', 'for every primitive of the serde data model the variants the serialiser builds are accepted by the matching deserialiser method (to_term -> from_term)', floor=14)
